@@ -426,3 +426,148 @@ Section ExprObjFacts.
     intros cas H. unfold obj_cached_outputs. apply (obj_run_sim cas [] []); [intros k s []|exact H].
   Qed.
 End ExprObjFacts.
+
+(* ------------------------------------------------------------------ *)
+(* induction over Python values (nested in list) *)
+Section PyvalInd.
+  Variable P : pyval -> Prop.
+  Hypothesis Hint : forall z, P (PInt z).
+  Hypothesis Hfloat : forall z, P (PFloat z).
+  Hypothesis Hbool : forall b, P (PBool b).
+  Hypothesis Hstr : forall s, P (PStr s).
+  Hypothesis Hnone : P PNone.
+  Hypothesis Hobj : forall n, P (PObj n).
+  Hypothesis Htuple : forall l, Forall P l -> P (PTuple l).
+  Hypothesis Hfrozen : forall l, Forall P l -> P (PFrozen l).
+  Hypothesis Hlist : forall l, Forall P l -> P (PList l).
+  Hypothesis Hdict : forall l, Forall P l -> P (PDict l).
+  Fixpoint pyval_induction (v : pyval) : P v :=
+    let go := fix go (l : list pyval) : Forall P l :=
+                match l with
+                | [] => Forall_nil P
+                | x :: l' => Forall_cons x (pyval_induction x) (go l')
+                end in
+    match v with
+    | PInt z => Hint z
+    | PFloat z => Hfloat z
+    | PBool b => Hbool b
+    | PStr s => Hstr s
+    | PNone => Hnone
+    | PObj n => Hobj n
+    | PTuple l => Htuple l (go l)
+    | PFrozen l => Hfrozen l (go l)
+    | PList l => Hlist l (go l)
+    | PDict l => Hdict l (go l)
+    end.
+End PyvalInd.
+
+Lemma list_eqb_nat_eq : forall s t, list_eqb Nat.eqb s t = true -> s = t.
+Proof.
+  induction s as [|x s IH]; intros [|y t]; cbn [list_eqb]; intros H; try discriminate; [reflexivity|].
+  apply andb_true_iff in H. destruct H as [H1 H2]. apply Nat.eqb_eq in H1. subst. f_equal. exact (IH t H2).
+Qed.
+
+Lemma py_eqb_list : forall l m, py_eqb (PList l) (PList m) = pylist_eqb l m.
+Proof.
+  intros l m. unfold pylist_eqb. cbn [py_eqb num_of].
+  revert m. induction l as [|x l IH]; intros [|y m]; cbn [list_eqb]; try reflexivity.
+  rewrite IH. reflexivity.
+Qed.
+
+Lemma num_hash : forall e a b x, num_of a = Some x -> num_of b = Some x -> py_hash e a = py_hash e b.
+Proof.
+  intros e a b x Ha Hb.
+  assert (H : forall v, num_of v = Some x -> py_hash e v = hash_int x).
+  { intros v Hv. destruct v; cbn in Hv; try discriminate; inversion Hv; subst; cbn [py_hash]; try reflexivity.
+    destruct b0; reflexivity. }
+  rewrite (H a Ha), (H b Hb). reflexivity.
+Qed.
+
+(* Python's data-model requirement a == b => hash(a) == hash(b) holds in the model (frozenset-free
+   values): a dict lookup by == alone is what CPython's hash-then-== lookup computes *)
+Theorem hash_respects_eq : forall e a, no_frozen a = true ->
+  forall b, py_eqb a b = true -> py_hash e a = py_hash e b.
+Proof.
+  intros e a. induction a as [z|z|b0|s| |n|l IH|l IH|l IH|l IH] using pyval_induction; intros Hnf b Heq;
+    try (destruct (num_of b) as [y|] eqn:Eb; cbn [py_eqb num_of] in Heq; rewrite ?Eb in Heq;
+         [ apply Z.eqb_eq in Heq; subst; eapply num_hash; [reflexivity | exact Eb] | discriminate ]).
+  - (* str *) destruct b; cbn [py_eqb num_of] in Heq; try discriminate.
+    apply list_eqb_nat_eq in Heq. subst. reflexivity.
+  - (* None *) destruct b; cbn [py_eqb num_of] in Heq; try discriminate. reflexivity.
+  - (* obj *) destruct b; cbn [py_eqb num_of] in Heq; try discriminate.
+    apply Nat.eqb_eq in Heq. subst. reflexivity.
+  - (* tuple *) destruct b as [| | | | | |m| | |]; try (cbn [py_eqb num_of] in Heq; discriminate).
+    rewrite py_eqb_tuple in Heq. cbn [py_hash]. f_equal.
+    cbn [no_frozen] in Hnf. unfold pylist_eqb in Heq.
+    revert m Heq. induction l as [|x l IHl]; intros [|y m] Heq; cbn [list_eqb] in Heq; try discriminate; [reflexivity|].
+    apply andb_true_iff in Heq. destruct Heq as [H1 H2].
+    cbn [forallb] in Hnf. apply andb_true_iff in Hnf. destruct Hnf as [Hn1 Hn2].
+    inversion IH as [|? ? Hx Hl]; subst. cbn [map]. f_equal; [exact (Hx Hn1 y H1) | exact (IHl Hl Hn2 m H2)].
+  - (* frozenset *) cbn [no_frozen] in Hnf. discriminate.
+  - (* list *) destruct b; cbn [py_eqb num_of] in Heq; try discriminate. reflexivity.
+  - (* dict *) destruct b; cbn [py_eqb num_of] in Heq; try discriminate. reflexivity.
+Qed.
+
+(* ------------------------------------------------------------------ *)
+(* canonicalisation: an injective relabelling of the indices does not change the normalised call *)
+Section Relabel.
+  Variable rho : pyval -> pyval.
+  Hypothesis rho_eq : forall a b, py_eqb (rho a) (rho b) = py_eqb a b.
+
+  Lemma im_find_relabel : forall m v, im_find (rl_map rho m) (rho v) = im_find m v.
+  Proof.
+    induction m as [|[k i] m IH]; intros v; cbn [rl_map map im_find fst snd]; [reflexivity|].
+    rewrite rho_eq. destruct (py_eqb k v); [reflexivity | apply IH].
+  Qed.
+
+  Lemma rl_map_length : forall m, length (rl_map rho m) = length m.
+  Proof. intros m. unfold rl_map. apply map_length. Qed.
+
+  Lemma im_get_relabel : forall m v,
+    im_get (rl_map rho m) (rho v) = (rl_map rho (fst (im_get m v)), snd (im_get m v)).
+  Proof.
+    intros m v. unfold im_get. rewrite im_find_relabel. destruct (im_find m v) as [i|]; cbn [fst snd]; [reflexivity|].
+    rewrite rl_map_length. unfold rl_map. rewrite map_app. reflexivity.
+  Qed.
+
+  Lemma im_map_relabel : forall l m,
+    im_map (rl_map rho m) (map rho l) = (rl_map rho (fst (im_map m l)), snd (im_map m l)).
+  Proof.
+    induction l as [|v l IH]; intros m; cbn [map im_map]; [reflexivity|].
+    rewrite im_get_relabel. destruct (im_get m v) as [m1 s]. cbn [fst snd].
+    rewrite IH. destruct (im_map m1 l) as [m2 ss]. reflexivity.
+  Qed.
+
+  Lemma im_map2_relabel : forall ts m,
+    im_map2 (rl_map rho m) (map (map rho) ts) = (rl_map rho (fst (im_map2 m ts)), snd (im_map2 m ts)).
+  Proof.
+    induction ts as [|t ts IH]; intros m; cbn [map im_map2]; [reflexivity|].
+    rewrite im_map_relabel. destruct (im_map m t) as [m1 t1]. cbn [fst snd].
+    rewrite IH. destruct (im_map2 m1 ts) as [m2 r]. reflexivity.
+  Qed.
+
+  Theorem canonical_form_ignores_labels : forall r,
+    r_canon r = true -> is_edge_path (r_optimize r) = false ->
+    normalize (relabel rho r) = normalize r.
+  Proof.
+    intros r Hc He. unfold normalize. cbn [relabel r_canon r_inputs r_output r_size_dict r_shapes r_optimize
+                                            r_kwargs r_cache r_hcls r_inputs_are_lists].
+    rewrite Hc, He.
+    pose proof (im_map2_relabel (r_inputs r) []) as H2. cbn [rl_map map] in H2. rewrite H2.
+    destruct (im_map2 [] (r_inputs r)) as [m1 ins]. cbn [fst snd].
+    destruct (r_output r) as [o|]; cbn [option_map].
+    - rewrite im_map_relabel. destruct (im_map m1 o) as [m2 out]. cbn [fst snd].
+      destruct (r_size_dict r) as [sd|]; cbn [option_map].
+      + rewrite map_map. cbn [fst snd].
+        replace (map (fun x : pyval * pyval => rho (fst x)) sd) with (map rho (map fst sd)) by (rewrite map_map; reflexivity).
+        rewrite im_map_relabel. rewrite map_map. cbn [snd].
+        destruct (im_map m2 (map fst sd)) as [m3 ks]. cbn [fst snd]. reflexivity.
+      + destruct (r_shapes r); reflexivity.
+    - destruct (r_size_dict r) as [sd|]; cbn [option_map].
+      + rewrite map_map. cbn [fst snd].
+        replace (map (fun x : pyval * pyval => rho (fst x)) sd) with (map rho (map fst sd)) by (rewrite map_map; reflexivity).
+        rewrite im_map_relabel. rewrite map_map. cbn [snd].
+        destruct (im_map m1 (map fst sd)) as [m3 ks]. cbn [fst snd]. reflexivity.
+      + destruct (r_shapes r); reflexivity.
+  Qed.
+End Relabel.
